@@ -304,17 +304,31 @@ fn run(op: &str, a: &[&str]) -> String {
             };
             format!("ok {:x} {} {:x} {}", f.to_bits(), e, g.to_bits(), e2)
         }
+        // FBig -> f64 / f32.  `wide` is read through the public API: the base-2 conversion that
+        // to_f64 (HalfEven, 53 bits) resp. to_f32 (own mode, 24 bits) performs internally hands over a
+        // significand with more bits than the target precision (open finding F05: debug builds then
+        // trip a debug assertion, release builds round a second time).  The conversions themselves
+        // run under catch_unwind so that the class flag is reported by every build.
         "ftof64" => with_float!(a[0], a[1], |R, B| {
-            let v = FBig::<R, B>::from_repr(repr_of::<B>(a[3], a[4]), Context::new(usz(a[2])));
-            let (f, e) = match v.to_f64() {
-                Exact(f) => (f, "Exact"),
-                Inexact(f, r) => (f, rounding_str(r)),
-            };
-            let (g, e2) = match v.to_f32() {
-                Exact(f) => (f, "Exact"),
-                Inexact(f, r) => (f, rounding_str(r)),
-            };
-            format!("ok {:x} {} {:x} {}", f.to_bits(), e, g.to_bits(), e2)
+            let repr = repr_of::<B>(a[3], a[4]);
+            let ctx = usz(a[2]);
+            let v = FBig::<R, B>::from_repr(repr.clone(), Context::new(ctx));
+            let w64 = std::panic::catch_unwind(std::panic::AssertUnwindSafe(|| {
+                FBig::<mode::HalfEven, B>::from_repr(repr.clone(), Context::new(ctx))
+                    .with_base_and_precision::<2>(53).value().repr().significand().bit_len() > 53
+            })).unwrap_or(true);
+            let w32 = std::panic::catch_unwind(std::panic::AssertUnwindSafe(|| {
+                v.clone().with_base_and_precision::<2>(24).value().repr().significand().bit_len() > 24
+            })).unwrap_or(true);
+            let p64 = std::panic::catch_unwind(std::panic::AssertUnwindSafe(|| match v.to_f64() {
+                Exact(f) => format!("{:x} Exact", f.to_bits()),
+                Inexact(f, r) => format!("{:x} {}", f.to_bits(), rounding_str(r)),
+            })).unwrap_or_else(|_| "panic -".to_string());
+            let p32 = std::panic::catch_unwind(std::panic::AssertUnwindSafe(|| match v.to_f32() {
+                Exact(f) => format!("{:x} Exact", f.to_bits()),
+                Inexact(f, r) => format!("{:x} {}", f.to_bits(), rounding_str(r)),
+            })).unwrap_or_else(|_| "panic -".to_string());
+            format!("ok wide={}{} {} {}", b01(w64), b01(w32), p64, p32)
         }),
         // -------------------------------------------------------------------------- serialization
         "ser_ubig" => {
